@@ -8,10 +8,12 @@ checks = []
 claimed = []
 for pid in ids:
     p = os.path.join(ROOT, "props", pid + ".py")
-    if not os.path.exists(p) or pid in na:
+    if not os.path.exists(p):
         continue
     spec = importlib.util.spec_from_file_location("p", p); m = importlib.util.module_from_spec(spec); spec.loader.exec_module(m)
     s = m.SPEC
+    if not s.get('claimed', False):
+        continue
     claimed.append(pid)
     checks.append({
         "property_id": pid,
@@ -39,4 +41,13 @@ man = {
     "not_applicable": [{"property_id": k, "reason": v} for k, v in na.items() if k not in claimed],
 }
 json.dump(man, open(os.path.join(ROOT, "MANIFEST.json"), "w"), indent=1)
+# merged view of the per-property known-findings files
+merged = {"findings": [], "fixed": []}
+for f in sorted(glob.glob(os.path.join(ROOT, "known_findings", "C*.json"))):
+    d = json.load(open(f))
+    merged["findings"] += d.get("findings", [])
+    merged["fixed"] += d.get("fixed", [])
+json.dump(merged, open(os.path.join(ROOT, "known_findings.json"), "w"), indent=1)
+missing = [i for i in ids if i not in claimed and i not in na]
+assert not missing, "no not_applicable reason for %s" % missing
 print("claimed:", claimed)
